@@ -1,9 +1,74 @@
-//! C06 sessions (seeded driver). Fill in.
+//! C06 sessions: wall-clock times as integers mod 24 h and instants on the epoch line.
 use super::Tracer;
 use crate::gen::*;
+use crate::js::big;
 use crate::rng::Rng;
-use serde_json::json;
+use serde_json::{json, Value};
+
+/// a valid time duration (total < 2^53 s) with fields from zero to far above 2^63 ns, one sign
+fn time_dur(r: &mut Rng, with_date: bool) -> Value {
+    let sg: i128 = if r.chance(1, 2) { 1 } else { -1 };
+    let lim_s: i128 = 1 << 50; // each field at most 2^50 s worth, so that six fields stay below 2^53 s
+    let f = |r: &mut Rng, per_s_num: i128, per_s_den: i128| -> i128 {
+        match r.range(0, 9) { 0..=3 => 0, 4 | 5 => r.range(0, 100) as i128, 6 | 7 => r.range(0, 2_000_000_000) as i128, _ => exact_f64_int(r, lim_s * per_s_num / per_s_den) }
+    };
+    let h = f(r, 1, 3600); let mi = f(r, 1, 60); let s = f(r, 1, 1); let ms = f(r, 1000, 1); let us = f(r, 1_000_000, 1); let ns = f(r, 1_000_000_000, 1);
+    let (y, mo, w, d) = if with_date && r.chance(1, 5) { (r.range(0, 1) as i128, r.range(0, 1) as i128, r.range(0, 1) as i128, r.range(0, 3) as i128) } else { (0, 0, 0, 0) };
+    dur10(sg * y, sg * mo, sg * w, sg * d, sg * h, sg * mi, sg * s, sg * ms, sg * us, sg * ns)
+}
+
+fn rand_time(r: &mut Rng) -> i128 {
+    match r.range(0, 5) { 0 => 0, 1 => DAY_NS - 1, 2 => r.range(0, 1000) as i128, 3 => DAY_NS - 1 - r.range(0, 1000) as i128, _ => r.range128(0, DAY_NS - 1) }
+}
+fn rand_inst(r: &mut Rng) -> i128 {
+    match r.range(0, 7) { 0 => MAX_INSTANT - r.range(0, 1_000_000) as i128, 1 => -MAX_INSTANT + r.range(0, 1_000_000) as i128, 2 => r.range(-2_000_000, 2_000_000) as i128,
+        3 => -r.range128(0, MAX_INSTANT), _ => r.range128(-MAX_INSTANT, MAX_INSTANT) }
+}
+fn val_time(v: &Value) -> Option<i128> {
+    let g = |k: &str| v[k].as_i64();
+    Some((((g("h")? * 60 + g("mi")?) * 60 + g("s")?) as i128) * 1_000_000_000 + ((g("ms")? * 1000 + g("us")?) * 1000 + g("ns")?) as i128)
+}
 
 pub fn drive(t: &mut Tracer, r: &mut Rng, n: usize) {
-    let _ = (t, r, n);
+    while t.n < n {
+        if r.chance(1, 2) {
+            let mut cur = rand_time(r);
+            for _ in 0..r.range(3, 12) {
+                if r.chance(3, 5) {
+                    let op = if r.chance(1, 2) { "PlainTime.add" } else { "PlainTime.subtract" };
+                    // (durations with date units are not generated for PlainTime: the property is silent on them)
+                    let out = t.call(op, json!({"recv": time_json(cur), "dur": time_dur(r, false)}));
+                    match (out["kind"].as_str(), val_time(&out["val"])) { (Some("ok"), Some(v)) if (0..DAY_NS).contains(&v) => cur = v, _ => break }
+                } else {
+                    let other = if r.chance(1, 3) { (cur + r.range(-5, 5) as i128).rem_euclid(DAY_NS) } else { rand_time(r) };
+                    let op = if r.chance(1, 2) { "PlainTime.until" } else { "PlainTime.since" };
+                    let st = if r.chance(1, 4) { json!({}) } else { json!({"largest": *r.pick(&TIME_UNITS)}) };
+                    t.call(op, json!({"recv": time_json(cur), "other": time_json(other), "st": st}));
+                }
+            }
+        } else {
+            let mut cur = rand_inst(r);
+            for _ in 0..r.range(3, 12) {
+                match r.range(0, 9) {
+                    0..=4 => {
+                        let op = if r.chance(1, 2) { "Instant.add" } else { "Instant.subtract" };
+                        let out = t.call(op, json!({"recv": big(cur), "dur": time_dur(r, true)}));
+                        if out["kind"] == "ok" { let v = crate::js::unbig(&out["val"]); if v.abs() <= MAX_INSTANT { cur = v } else { break } }
+                    }
+                    5 | 6 => {
+                        let other = if r.chance(1, 3) { (cur + r.range(-3_000_000, 3_000_000) as i128).clamp(-MAX_INSTANT, MAX_INSTANT) } else { rand_inst(r) };
+                        let op = if r.chance(1, 2) { "Instant.until" } else { "Instant.since" };
+                        let st = if r.chance(1, 4) { json!({}) } else { json!({"largest": *r.pick(&TIME_UNITS)}) };
+                        t.call(op, json!({"recv": big(cur), "other": big(other), "st": st}));
+                    }
+                    7 => { t.call("Instant.epochMs", json!({"recv": big(cur)})); }
+                    8 => { let ms = match r.range(0, 3) { 0 => 8_640_000_000_000_000i128 + r.range(-2, 2) as i128, 1 => -8_640_000_000_000_000i128 + r.range(-2, 2) as i128, _ => r.range128(-9_000_000_000_000_000, 9_000_000_000_000_000) };
+                           t.call("Instant.fromEpochMs", json!({"ms": big(ms)})); }
+                    _ => { let v = match r.range(0, 2) { 0 => MAX_INSTANT + r.range(-2, 2) as i128, 1 => -MAX_INSTANT + r.range(-2, 2) as i128, _ => r.range128(-2 * MAX_INSTANT, 2 * MAX_INSTANT) };
+                           t.call("Instant.new", json!({"ns": big(v)})); }
+                }
+            }
+        }
+        t.reset();
+    }
 }
